@@ -21,6 +21,7 @@ import (
 type Leaf struct {
 	Path   string   // primary absolute path, keys sorted by name
 	Alt    []string // further paths addressing the same field (e.g. compressed key leaves)
+	Shadow []string // paths from the "shadow-path" tag (inert unless shadow paths are preferred)
 	Val    string   // canonical, type-tagged value
 	GoType string
 	Key    bool          // list key leaf
@@ -328,6 +329,12 @@ func Render(v reflect.Value) string {
 			parts[i] = Render(v.Index(i))
 		}
 		return "[" + strings.Join(parts, " ") + "]"
+	case reflect.Struct:
+		parts := make([]string, v.NumField())
+		for i := 0; i < v.NumField(); i++ {
+			parts[i] = Render(v.Field(i))
+		}
+		return "{" + strings.Join(parts, " ") + "}"
 	}
 	return "<" + v.Kind().String() + ">"
 }
@@ -655,6 +662,11 @@ func (w *walker) structNode(s reflect.Value, sch *yang.Entry, base string) {
 			l := &Leaf{Path: p, Val: Render(f), GoType: dynType(f), Field: f, Schema: csch}
 			for _, a := range alts[1:] {
 				l.Alt = append(l.Alt, joinPath(base, a))
+			}
+			if sp := sf.Tag.Get("shadow-path"); sp != "" {
+				for _, a := range strings.Split(sp, "|") {
+					l.Shadow = append(l.Shadow, joinPath(base, a))
+				}
 			}
 			if sch != nil && sch.IsList() {
 				els := strings.Split(rel, "/")
